@@ -37,6 +37,11 @@ CHECKS = {
         technique="path enumeration over a hand-built statement CFG of _automaton_accepted with flag specialisation",
         text="Decides, on every path of the memoised recursion, that the zero-length contribution is merged whenever maxlen may be true, that the recursion forwards every option, and that the word and matrix channels are combined on the same side in the same order. Not language equality.",
         ref="DESIGN.md §4 C06"),
+    "C07": dict(
+        engine="CM1 + EV + EVEN2 + GEO1 + INF1 + INFC + KEY1 + LEX1 + MC1 + N1 + ORD2 + THR1 + TOL2 + U1",
+        technique="flag-threading dataflow along the automaton -> small-root -> transition call chain; path conditions at the edge-recording and pruning statements; sibling agreement of the infinity convention between coxeter.py and coxeter_automaton.py; tolerance-discipline lint on floating root tests; memo-key completeness; call-graph unbound-name scan",
+        text="Narrow (claimed in the ninth round). Decides only structural necessary conditions of the accepted language: the `shortlex` request of CoxeterGroup.automaton is passed, as the flag itself, through generate_automaton_coxeter_matrix and generate_automaton to every apply_gen_to_node call (THR1); the even-length variant is even_automaton() of the same automaton exactly under the flag and even_automaton is automaton_multiple(2) (EVEN2, EV); letters are renamed with self.ordered_gens, the order that indexes the Coxeter matrix (ORD2, CM1); both modules treat exactly the labels <= 0 as infinite, with form entry -1 (INFC, INF1, N1: no `or`-default swallows the label 0); an edge labelled k is recorded only where node[k] != 1 is in force and the lexicographic pruning runs only under lex_reduced and over range(k) (GEO1, LEX1, read from path conditions); every float sign test of a root coordinate or pairing carries the module's 1e-6 tolerance (TOL2, 4 tests); a module-level memo, if one is introduced, keys on every input of the cached automaton and never hands out the cached object (KEY1, MC1); no unbound name is reachable (U1). Not decided: completeness of the small-root enumeration, correctness of the state transition, and that the accepted language is exactly the reduced / shortlex words -- an infinite-language statement that needs a word-problem oracle.",
+        ref="DESIGN.md §4 C07, §0.9"),
     "C08": dict(
         engine="C2 + CM1 + DU + INF1 + N1 + P1q + PA1 + T1 + T1e + U1",
         technique="interprocedural value-kind flow from Coxeter constructors to np.can_cast probes; AST pattern on canonical_representation",
@@ -105,7 +110,6 @@ CHECKS = {
 }
 
 NA = {
-    "C07": "Correctness of the Brink-Howlett small-root automaton needs a word-problem oracle over an infinite language; no clause is visible in code shape (DESIGN §4 C07).",
 }
 
 TRUST = ("Trusted base: the hand-written import/MRO/CHA resolution in sa/project.py "
